@@ -144,6 +144,7 @@ func (r *Run) Assume(s ...string)    { r.assumptions = append(r.assumptions, s..
 func (r *Run) Exhaustive(b bool)     { r.exhaustive = b }
 func (r *Run) Extra(k string, v any) { r.mu.Lock(); r.extra[k] = v; r.mu.Unlock() }
 func (r *Run) Inconclusive(s string) { r.mu.Lock(); r.inconcl = s; r.mu.Unlock() }
+func (r *Run) IsInconclusive() bool  { r.mu.Lock(); defer r.mu.Unlock(); return r.inconcl != "" }
 func (r *Run) ViolationCount() int   { r.mu.Lock(); defer r.mu.Unlock(); return len(r.viol) }
 
 // Violate records a finding under a structural key. detail is written to the
@@ -160,7 +161,7 @@ func (r *Run) Violate(key, what string, unit int64, detail any) {
 		dir = "."
 	}
 	_ = os.MkdirAll(dir, 0o755)
-	name := filepath.Join(dir, fmt.Sprintf("%s-%s-%d-%d.json", r.Property, r.Tier, r.Seed, len(r.viol)))
+	name := filepath.Join(dir, fmt.Sprintf("%s-%s-%d-%s%d.json", r.Property, r.Tier, r.Seed, os.Getenv("VERIF_WORKER_TAG"), len(r.viol)))
 	b, _ := json.MarshalIndent(map[string]any{
 		"property": r.Property, "tier": r.Tier, "seed": r.Seed, "unit": unit, "key": key, "what": what, "detail": detail,
 	}, "", " ")
@@ -168,11 +169,77 @@ func (r *Run) Violate(key, what string, unit int64, detail any) {
 	r.viol[key] = &Violation{Key: key, What: what, Replay: name, Count: 1}
 }
 
+// exported is the wire form of a worker process's observations.
+type exported struct {
+	Counts  map[string]int64
+	Sets    map[string][]string
+	Samples []any
+	Viol    []*Violation
+	Inconcl string
+}
+
+// Merge folds a worker's export file into this run.
+func (r *Run) Merge(path string) error {
+	b, err := os.ReadFile(path)
+	if err != nil {
+		return err
+	}
+	var e exported
+	if err := json.Unmarshal(b, &e); err != nil {
+		return err
+	}
+	r.mu.Lock()
+	defer r.mu.Unlock()
+	for k, v := range e.Counts {
+		r.counts[k] += v
+	}
+	for k, vs := range e.Sets {
+		m := r.sets[k]
+		if m == nil {
+			m = map[string]struct{}{}
+			r.sets[k] = m
+		}
+		for _, v := range vs {
+			m[v] = struct{}{}
+		}
+	}
+	for _, s := range e.Samples {
+		if len(r.samples) < r.maxSamples {
+			r.samples = append(r.samples, s)
+		}
+	}
+	for _, v := range e.Viol {
+		if have, ok := r.viol[v.Key]; ok {
+			have.Count += v.Count
+		} else {
+			r.viol[v.Key] = v
+		}
+	}
+	if e.Inconcl != "" && r.inconcl == "" {
+		r.inconcl = e.Inconcl
+	}
+	return nil
+}
+
 // Finish writes the evidence and result files. The process should exit 0
 // afterwards; the driver decides the exit code from the result file.
 func (r *Run) Finish() {
 	r.mu.Lock()
 	defer r.mu.Unlock()
+	if p := os.Getenv("VERIF_EXPORT"); p != "" {
+		e := exported{Counts: r.counts, Sets: map[string][]string{}, Samples: r.samples, Inconcl: r.inconcl}
+		for k, m := range r.sets {
+			for v := range m {
+				e.Sets[k] = append(e.Sets[k], v)
+			}
+		}
+		for _, v := range r.viol {
+			e.Viol = append(e.Viol, v)
+		}
+		b, _ := json.Marshal(e)
+		_ = os.WriteFile(p, b, 0o644)
+		return
+	}
 	cov := map[string]any{}
 	for k, v := range r.extra {
 		cov[k] = v
